@@ -21,7 +21,7 @@ RULE = ('inputs: symmetric sign patterns over {-,0,+} on 4 nodes with >=1 positi
         'iteration} x wei_freq in {0, 1, 0.5}, <=3 positive and <=3 negative connections (permutation menus <= 6!), plus '
         '5-node inputs whose negative support is one representative per isomorphism class of 5-edge (thorough: and 6-edge) '
         'graphs with tied dyadic magnitudes from {1/4,1/2,1} x wei_freq in {0.25,0.5,1}, and 5-node undirected / directed inputs with 5-6 negative connections x wei_freq in '
-        '{0.4, 0.7, 0.8} (not reciprocals of integers); ALL '
+        '{0.4, 0.7, 0.8} (not reciprocals of integers), inputs with one sign absent and fully connected 3-node inputs (the null models then skip the rewiring); ALL '
         'generator answers per configuration; non-trivial = configuration with >= 2 distinct reachable outputs')
 ASSUMPTIONS = ['distinct integer magnitudes so every weight is identifiable (4-node inputs); tied dyadic magnitudes with additive '
                'coincidences on the 5-node null-model inputs', 'state merging as in C01',
@@ -170,6 +170,39 @@ def catalogue(thorough):
         for wf in ((0.4, 0.7, 0.8, 1, 0.5) if thorough else (0.4, 0.7)):
             cfgs.append({'fn': 'null_model_dir_sign', 'tag': 'dfrac_%d' % k, 'W': W,
                          'params': {'bin_iters': 0, 'wei_freq': wf, 'dir_rewirer': True}})
+    # one sign absent (the 'adjust for absent weights' paths), and fully connected positive input (the branch of the
+    # null models that skips the rewiring)
+    def one_sign(n, pairs, sgn, directed):
+        W = np.zeros((n, n))
+        for k, (a, b) in enumerate(pairs):
+            W[a, b] = sgn * (k + 1.0)
+            if not directed:
+                W[b, a] = W[a, b]
+        return W
+    for sgn, sname in ((1, 'pos'), (-1, 'neg')):
+        for pname, pairs in (('path', [(0, 1), (1, 2), (2, 3)]), ('two', [(0, 1), (2, 3)]), ('cyc', [(0, 1), (1, 2), (2, 3), (0, 3)])):
+            W = one_sign(4, pairs, sgn, False)
+            cfgs.append({'fn': 'randmio_und_signed', 'tag': 'only%s_%s' % (sname, pname), 'W': W, 'params': {'iters': 1}})
+            for bi in (0, 1):
+                for wf in (1, 0.5):
+                    cfgs.append({'fn': 'null_model_und_sign', 'tag': 'only%s_%s' % (sname, pname), 'W': W,
+                                 'params': {'bin_iters': bi, 'wei_freq': wf}})
+            Wd = one_sign(4, pairs, sgn, True)
+            cfgs.append({'fn': 'randmio_dir_signed', 'tag': 'only%s_%s' % (sname, pname), 'W': Wd, 'params': {'iters': 1}})
+            for bi in (0, 1):
+                cfgs.append({'fn': 'null_model_dir_sign', 'tag': 'only%s_%s' % (sname, pname), 'W': Wd,
+                             'params': {'bin_iters': bi, 'wei_freq': 1, 'dir_rewirer': True}})
+        K3 = one_sign(3, [(0, 1), (0, 2), (1, 2)], sgn, False)
+        K3d = K3 + one_sign(3, [(1, 0), (2, 0), (2, 1)], sgn, True) * 0 + np.tril(K3) * 0.5
+        for wf in (1, 0.5):
+            cfgs.append({'fn': 'null_model_und_sign', 'tag': 'full%s_K3' % sname, 'W': K3, 'params': {'bin_iters': 1, 'wei_freq': wf}})
+            cfgs.append({'fn': 'null_model_dir_sign', 'tag': 'full%s_K3' % sname, 'W': K3d,
+                         'params': {'bin_iters': 1, 'wei_freq': wf, 'dir_rewirer': True}})
+    K3m = np.array([[0, 1.0, -2.0], [1.0, 0, 3.0], [-2.0, 3.0, 0]])
+    for wf in (1, 0.5):
+        cfgs.append({'fn': 'null_model_und_sign', 'tag': 'fullmixed_K3', 'W': K3m, 'params': {'bin_iters': 1, 'wei_freq': wf}})
+        cfgs.append({'fn': 'null_model_dir_sign', 'tag': 'fullmixed_K3', 'W': K3m + np.tril(K3m) * 0.5,
+                     'params': {'bin_iters': 1, 'wei_freq': wf, 'dir_rewirer': True}})
     small_d = [(tag, W) for tag, W in dir_patterns(thorough) if np.count_nonzero(W) <= 5]
     small_d = small_d[::(3 if not thorough else 1)]
     for tag, W in small_d:
